@@ -89,6 +89,7 @@ type Knobs struct {
 	PDeepWrap       int  // a parameter / result object is wrapped in 2-4 further objects
 	PEmptyTag       int  // object fields carry explicit empty name:"" / group:"" tags
 	PNoResult       int  // C15: constructors without results vs. with empty result objects
+	PErrPtr         int  // the error result is declared as a concrete type implementing error (such a function always fails)
 	PErr2           int  // a second error result (both non-nil when the function fails)
 	PReenterDeco    int  // C02: probability that a decorator body calls Invoke (for its own key or others)
 	PEmbedPos       int  // the embedded dig.In / dig.Out of a generated object is not its first field
@@ -585,6 +586,9 @@ func (g *gen) newFn() *Fn {
 }
 
 func (g *gen) faults(f *Fn) {
+	if f.ErrT == "ptr" {
+		return // fails on every execution already
+	}
 	if g.k.NoFaults || !g.pct(g.k.PFault, "fault?") {
 		return
 	}
@@ -620,6 +624,10 @@ func (g *gen) errAndVariadic(f *Fn) {
 		}
 		if g.pct(g.k.PErr2, "err2") {
 			f.Err2 = true
+		}
+		if !g.k.NoFaults && g.pct(g.k.PErrPtr, "errptr") {
+			f.ErrT = "ptr" // error result declared as a concrete type: the function always fails
+			f.Faults = []int{FaultError, FaultError, FaultError, FaultError, FaultError, FaultError, FaultError, FaultError}
 		}
 	}
 	if g.pct(g.k.PVariadic, "variadic?") {
@@ -1110,7 +1118,11 @@ func (g *gen) cbInvokeFor(mf *MFn) *Reenter {
 			sc = sub[g.pick(len(sub), "cbis")]
 		}
 	}
-	return &Reenter{S: sc, P: g.encodeParams([]pleaf{{key: k}})}
+	l := pleaf{key: k}
+	if k.Group != "" {
+		l.soft = g.pct(g.k.PSoft, "cbisoft")
+	}
+	return &Reenter{S: sc, P: g.encodeParams([]pleaf{l})}
 }
 
 func (g *gen) genDecorate(s int) (Op, bool) {
